@@ -17,7 +17,7 @@ import (
 	"github.com/imroc/req/v3/verifharness/origin"
 )
 
-func main() { hk.Main("C01", runC01, nil) }
+func main() { hk.Main("C01", runC01, syncers) }
 
 func cs(s string) string { return hk.CoqStr(s) }
 
@@ -57,10 +57,25 @@ func runC01(r *hk.Run) {
 	r.Rule = "values drawn from an injection alphabet (reserved bytes, %, braces, dot segments, ?, #, CR/LF, NUL, non-UTF-8, blanks, long, empty); URL templates from a token grammar (literal / pre-escaped / must-be-escaped text and {holes}), parameter and query maps at client and request level with overlapping keys. Non-trivial: a value or key contains a byte outside [A-Za-z0-9], or both levels set the same key. Distinct by canonical scenario text."
 	rng := hk.NewRand(r.Seed)
 
-	// (a) escaping primitives against net/url
-	n := r.Scale(600, 12000)
+	// (a) escaping primitives against net/url: every single byte, every %XY with X,Y from a
+	// class representative set, then the injection alphabet
+	var sweep []string
+	for b := 0; b < 256; b++ {
+		sweep = append(sweep, string([]byte{byte(b)}))
+	}
+	for _, x := range "09afAFgG%+ z" {
+		for _, y := range "09afAFgG%+ z" {
+			sweep = append(sweep, "%"+string(x)+string(y), "a%"+string(x))
+		}
+	}
+	n := r.Scale(600, 12000) + len(sweep)
 	for i := 0; i < n; i++ {
-		v := genValue(rng)
+		v := ""
+		if i < len(sweep) {
+			v = sweep[i]
+		} else {
+			v = genValue(rng)
+		}
 		if len(v) > 600 {
 			v = v[:600]
 		}
@@ -127,6 +142,9 @@ func runC01(r *hk.Run) {
 
 	// (d) connection-level events: the retry must carry the body
 	runEventCells(r, rng.Fork())
+
+	// (e) authority grammar, SetScheme, host-part parameters, very long URLs (no network)
+	runOfflineCells(r, rng.Fork())
 }
 
 func nonTrivialStr(s string) bool {
